@@ -99,22 +99,33 @@ def gen_any(rng, depth=0):
     return {rng.choice(KEY_POOL + ["a", "b", "cfg", "k%d" % rng.randint(0, 9)]): gen_any(rng, depth + 1) for _ in range(rng.randint(0, 3))}
 
 
+# v2 keys whose values the v3 loader compiles as regular expressions (Go RE2 syntax).  The clause "the
+# loader accepts the migrated file" is about v2 files whose regex values compile: the ordinary streams
+# draw these values from RE_POOL[0] (the strings of STR_POOL that regexp.Compile accepts, set by check());
+# values that do not compile (RE_BAD[0]) are used by the explicit class kind="invalid-regex" only.
+REGEX_KEYS = ("include-regex", "exclude-regex", "exclude")
+RE_CANDIDATES_BAD = ["(", "[a-", "*a", "a{2,1}", "(?P<n", "\\", "x**", "a(b", "[[:nope:]]", "(?<x>a)\\1", "\\8", "+"]
+RE_POOL = [None]
+RE_BAD = [None]
+
+
 def gen_value(rng, key, lvl):
     t = KTYPE[key]
     if t == "bool":
         return rng.random() < 0.5
+    pool = RE_POOL[0] if (key in REGEX_KEYS and RE_POOL[0]) else STR_POOL
     if t == "str":
         r = rng.random()
         if r < 0.45:
             return "%s@%s" % (key, lvl)                 # marker: pairwise distinct per (key, level) -> cross-wiring shows
         if r < 0.5:
             return "same"                               # deliberately equal across keys
-        return rng.choice(STR_POOL)
+        return rng.choice(pool)
     if t == "strlist":
         if key == "replace-type":
             return [rng.choice(REPLACE) for _ in range(rng.randint(0, 2))]
         n = rng.choice([0, 1, 1, 2, 3, 5])
-        return [rng.choice(STR_POOL + ["%s%d@%s" % (key, i, lvl)]) for i in range(n)]
+        return [rng.choice(pool + ["%s%d@%s" % (key, i, lvl)]) for i in range(n)]
     n = rng.choice([0, 1, 1, 2, 3])
     return {rng.choice(["a", "b", "common", "inpackage_config", "x y", "k: v", "", "null", "1"] + KEY_POOL[:8]): gen_any(rng, 1) for _ in range(n)}
 
@@ -136,7 +147,7 @@ def bump(d, k):
 
 def new_hist():
     h = {"key:%s" % l: {} for l in LEVELS}
-    h.update({"history": {}, "kind": {}, "packages": {}, "interfaces_per_pkg": {}, "configs_per_iface": {}, "dump": {}, "cli": {},
+    h.update({"invalid_regex_class": {}, "history": {}, "kind": {}, "packages": {}, "interfaces_per_pkg": {}, "configs_per_iface": {}, "dump": {}, "cli": {},
               "null_nodes": 0, "aliased_configs": 0, "nested_packages": 0, "iface_with_config_and_configs": 0})
     return h
 
@@ -387,6 +398,62 @@ def run_loader(ctx, idx, text):
 
 
 # ---------------------------------------------------------------------------------------------
+# which strings compile: Go's own regexp.Compile, through harness/go/drv_regex
+import threading as _threading
+_RE_LOCK = _threading.Lock()
+
+
+def re_ok_many(ctx, strings):
+    cache = ctx.__dict__.setdefault("re_cache", {})
+    with _RE_LOCK:
+        todo = sorted({x for x in strings if x not in cache})
+        if todo:
+            p = run([ctx.bins["drv_regex"]], inp=json.dumps([x.encode().hex() for x in todo]).encode(), timeout=300)
+            if p.returncode != 0:
+                raise RuntimeError("drv_regex failed: " + p.stderr.decode(errors="replace")[-2000:])
+            for x, ok in zip(todo, json.loads(p.stdout)):
+                cache[x] = ok
+    return cache
+
+
+def all_strings(v, acc=None):
+    acc = set() if acc is None else acc
+    if isinstance(v, str):
+        acc.add(v)
+    elif isinstance(v, dict):
+        for x in v.values():
+            all_strings(x, acc)
+    elif isinstance(v, list):
+        for x in v:
+            all_strings(x, acc)
+    return acc
+
+
+def bad_of(ctx, *trees):
+    """the string values of the trees that regexp.Compile refuses"""
+    ss = set()
+    for t in trees:
+        all_strings(t, ss)
+    ok = re_ok_many(ctx, ss)
+    return sorted(x for x in ss if not ok[x])
+
+
+def v2_regex_values(v2):
+    out = []
+    for _, c in levels_of(v2 or {}):
+        if not isinstance(c, dict):
+            continue
+        for k in ("include-regex", "exclude-regex"):
+            if isinstance(c.get(k), str):
+                out.append(c[k])
+        out += [x for x in (c.get("exclude") or []) if isinstance(x, str)]
+    return out
+
+
+REGEX_DIAG = re.compile(r"invalid `(include-interface-regex|exclude-interface-regex|exclude-subpkg-regex)`: error parsing regexp")
+
+
+# ---------------------------------------------------------------------------------------------
 # the property, evaluated directly on the two parsed YAML documents (no model involved)
 def empty(v):
     return v is None or v == [] or v == {}
@@ -453,7 +520,8 @@ def text_diff(a, b):
     return "\n".join(list(difflib.unified_diff(a, b, "fresh-path", "existing-outfile", lineterm="", n=1))[:40])
 
 
-def oracle(v2, v3, obs):
+def oracle(v2, v3, obs, bad=()):
+    """bad: the strings (of this case) that are not regular expressions"""
     errs = []
     if obs["exit"] != "ok":
         errs.append("migrate exit class %s (rc=%s) on a decodable v2 file" % (obs["exit"], obs["rc"]))
@@ -499,9 +567,16 @@ def oracle(v2, v3, obs):
                 errs.append("interface %r.%r: %d configs entries in v2, %d in v3" % (pn, iname, len(s2), len(s3)))
             for n, (a, b) in enumerate(zip(s2, s3)):
                 oracle_cfg("interface %r.%r configs[%d]" % (pn, iname, n), a or {}, b, False, errs)
-    if obs["load"] != "ok":
+    invalid = [x for x in v2_regex_values(v2) if x in set(bad)]
+    if invalid:
+        # the value is carried over unchanged (checked above like every other value); the loader validates
+        # every configured expression and must refuse the file with that diagnostic
+        if obs["load"] != "err" or not REGEX_DIAG.search(obs.get("load_msg") or ""):
+            errs.append("v2 regex value(s) %r do not compile, but the loader did not reject the migrated file with the regex diagnostic: "
+                        "`mockery showconfig` -> %s: %s" % (invalid[:3], obs["load"], (obs.get("load_msg") or "")[:400]))
+    elif obs["load"] != "ok":
         errs.append("the strict loader does not accept the migrated file: `mockery showconfig` -> %s: %s"
-                    % (obs["load"], obs.get("load_msg", "")[:400]))
+                    % (obs["load"], (obs.get("load_msg") or "")[:400]))
     return errs
 
 
@@ -580,10 +655,11 @@ def root_term(v2, pkg_pairs=None):
 OBS = {"ok": "OOk", "err": "OErr", "panic": "OPanic"}
 
 
-def case_term(v2, obs, v3, dup_pairs=None):
+def case_term(v2, obs, v3, dup_pairs=None, bad=()):
     out = "None" if v3 is None or not obs["out_exists"] else "(Some (%s))" % yv_term(v3)
     ld = "None" if obs["load"] is None else "(Some %s)" % OBS[obs["load"]]
-    return "{| c_in := %s; c_exit := %s; c_out := %s; c_load := %s |}" % (root_term(v2, dup_pairs), OBS[obs["exit"]], out, ld)
+    return "{| c_in := %s; c_exit := %s; c_out := %s; c_load := %s; c_badre := %s |}" % (
+        root_term(v2, dup_pairs), OBS[obs["exit"]], out, ld, coq_list(coq_bytes(x.encode()) for x in bad))
 
 
 # ---------------------------------------------------------------------------------------------
@@ -639,7 +715,7 @@ def shrink(ctx, v2, fails, budget=400):
 def category(errs):
     """coarse class of an oracle failure: which clause of the property fails"""
     e = errs[0]
-    for key in ("strict loader", "exit class", "input file was modified", "fresh path", "files created", "no v2 origin", "is not set in v2",
+    for key in ("strict loader", "regex diagnostic", "exit class", "input file was modified", "fresh path", "files created", "no v2 origin", "is not set in v2",
                 "names differ", "configs entries", "not parseable", "configuration node", "harness"):
         if any(key in x for x in errs):
             return key
@@ -655,7 +731,8 @@ def evaluate(ctx, v2, idx=99990, cli="explicit", pre=None):
             v3 = load_yaml(obs["out_text"])
         except yaml.YAMLError as e:
             return text, obs, None, ["output is not parseable YAML: %s" % e]
-    return text, obs, v3, oracle(load_yaml(text), v3, obs)
+    v2p = load_yaml(text)
+    return text, obs, v3, oracle(v2p, v3, obs, bad_of(ctx, v2p, v3))
 
 
 # ---------------------------------------------------------------------------------------------
@@ -700,11 +777,18 @@ def mutate_v3(rng, t, hist):
     for _, n in cfg_nodes(t):
         n.pop("recursive", None)
     kind = rng.choice(["none", "valid-key", "foreign-key", "wrong-shape", "struct-key", "null-node", "null-sub", "struct-shape",
-                       "case-variant", "case-duplicate"])
+                       "case-variant", "case-duplicate", "bad-regex"])
     bump(hist, kind)
     nodes = list(cfg_nodes(t))
     path, node = rng.choice(nodes)
-    if kind == "valid-key":
+    if kind == "bad-regex":
+        # the loader compiles every configured expression at every level
+        badv = rng.choice(RE_BAD[0] or ["("])
+        k = rng.choice(["include-interface-regex", "exclude-interface-regex", "exclude-subpkg-regex"])
+        if path != () and rng.random() < 0.3:
+            k = k.title()
+        node[k] = [rng.choice(["ok", ".*"]), badv] if k.lower() == "exclude-subpkg-regex" else badv
+    elif kind == "valid-key":
         k = rng.choice([k for k in V3_CFG_KEYS if k != "recursive"])
         node[k] = V3_SAMPLE[k]
     elif kind == "foreign-key":
@@ -969,6 +1053,34 @@ def gen_history(rng, hist, tree):
                       "empty": b"", "long-stale": b"stale: content\n" * 200}[k])
 
 
+def inject_invalid_regex(rng, tree, hist):
+    """the explicit small class: one regex-valued v2 key, at a random level, gets a value that
+    Go's regexp package does not compile (migrate must carry it over; the loader must refuse the result)"""
+    nodes = [("top", tree)]
+    for pn, pk in (tree.get("packages") or {}).items():
+        if isinstance(pk, dict):
+            if not isinstance(pk.get("config"), dict):
+                pk["config"] = {}
+            nodes.append(("pkg", pk["config"]))
+            for iname, ic in (pk.get("interfaces") or {}).items():
+                if isinstance(ic, dict):
+                    if isinstance(ic.get("config"), dict):
+                        nodes.append(("iface", ic["config"]))
+                    for c in ic.get("configs") or []:
+                        if isinstance(c, dict):
+                            nodes.append(("sub", c))
+    lvl, node = rng.choice(nodes)
+    key = rng.choice(REGEX_KEYS)
+    badv = rng.choice(RE_BAD[0])
+    if key == "exclude":
+        lst = [x for x in (node.get("exclude") or [])]
+        lst.insert(rng.randint(0, len(lst)), badv)
+        node["exclude"] = lst
+    else:
+        node[key] = badv
+    bump(hist["invalid_regex_class"], "%s/%s" % (lvl, key))
+
+
 def pre_to_json(pre):
     if pre is None:
         return None
@@ -1003,10 +1115,13 @@ def check(ctx, only=None):
         t_ph[0] = time.time()
     gate = proof_gate(ctx)
     mark("proof_gate")
-    if not ctx.build_tree():
+    if not ctx.build_tree(drivers=["drv_regex"]):
         ctx.write_evidence(gate, 0, 0, "build failed", [])
         return
     mark("build")
+    okm = re_ok_many(ctx, STR_POOL + RE_CANDIDATES_BAD)
+    RE_POOL[0] = [x for x in STR_POOL if okm[x]]
+    RE_BAD[0] = [x for x in STR_POOL + RE_CANDIDATES_BAD if not okm[x]]
     rng = ctx.rng
     hist = new_hist()
     scale = 10 if ctx.thorough() else 1
@@ -1027,6 +1142,8 @@ def check(ctx, only=None):
             if i % 7 == 0:
                 kind, single = "single", allpairs[(off + i // 7) % len(allpairs)]
             tree = gen_tree(rng, hist, kind, single)
+            if i % 16 == 5:
+                inject_invalid_regex(rng, tree, hist)
             text = dump_yaml(rng, tree, hist)
             cli = rng.choice(["explicit"] * 6 + ["default-out", "search"])
             pre = gen_history(rng, hist, tree)
@@ -1036,6 +1153,8 @@ def check(ctx, only=None):
     obs = pmap(lambda a: run_case(ctx, a[0], a[1][1], a[1][2], a[1][3]), list(enumerate(inputs)))
     mark("main_run")
     outs, oracle_fail, terms, term_idx = [], {}, [], []
+    bads, re_outcomes = [], {}
+    re_ok_many(ctx, set().union(*[all_strings(v) for v in parsed]) if parsed else set())      # one driver call
     for i, ((label, text, cli, pre), v2, o) in enumerate(zip(inputs, parsed, obs)):
         v3 = None
         e = []
@@ -1045,13 +1164,19 @@ def check(ctx, only=None):
             except yaml.YAMLError as ex:
                 e.append("output is not parseable YAML: %s" % ex)
         outs.append(v3)
-        e += oracle(v2, v3, o)
+        bad = bad_of(ctx, v2, v3)
+        bads.append(bad)
+        if set(v2_regex_values(v2)) & set(bad):
+            bump(re_outcomes, "invalid regex value -> migrate %s, showconfig %s" % (o["exit"], o["load"]))
+        else:
+            bump(re_outcomes, "all regex values compile -> migrate %s, showconfig %s" % (o["exit"], o["load"]))
+        e += oracle(v2, v3, o, bad)
         if e:
             oracle_fail[i] = e
         if has_merge(v2) and not e:
             oracle_fail[i] = e = ["harness: main-stream input inside known-finding class C19-merge-key"]
         try:
-            terms.append(case_term(v2, o, v3))
+            terms.append(case_term(v2, o, v3, bad=bad))
             term_idx.append(i)
         except (ValueError, AssertionError) as ex:
             if not e:
@@ -1072,7 +1197,8 @@ def check(ctx, only=None):
     l_terms, l_idx = [], []
     for i, (t, o) in enumerate(zip(l_inputs, l_obs)):
         try:
-            l_terms.append("{| l_tree := %s; l_obs := %s |}" % (yv_term(t), OBS[o]))
+            l_terms.append("{| l_tree := %s; l_obs := %s; l_badre := %s |}" % (
+                yv_term(t), OBS[o], coq_list(coq_bytes(x.encode()) for x in bad_of(ctx, t))))
             l_idx.append(i)
         except ValueError:
             pass
@@ -1119,7 +1245,8 @@ def check(ctx, only=None):
                     v3 = load_yaml(o["out_text"])
                 except yaml.YAMLError as ex:
                     e.append("output is not parseable YAML: %s" % str(ex)[:200])
-            e += oracle(load_yaml(text), v3, o)
+            wbad = bad_of(ctx, t, v3)
+            e += oracle(load_yaml(text), v3, o, wbad)
             if not has_merge(t):
                 w_problems.append({"v2_yaml": text, "problem": "harness: witness input outside the class"})
             elif not e:
@@ -1128,7 +1255,7 @@ def check(ctx, only=None):
                 w_problems.append({"v2_yaml": text, "problem": "another symptom than listed: %s" % e[:2]})
             else:
                 shown += 1
-            wterms.append(case_term(t, o, v3))
+            wterms.append(case_term(t, o, v3, bad=wbad))
         wb, we = coq_mismatches(ctx, H, wterms, shard=40, check="wmismatches")
         for b in wb:
             w_problems.append({"v2_yaml": wtexts[b], "v3_yaml": wobs[b]["out_text"], "showconfig": wobs[b]["load"],
@@ -1198,7 +1325,7 @@ def check(ctx, only=None):
         detail = []
         for i in [b for b in bad if b >= 0][:3]:
             label, text, cli, pre = inputs[i]
-            exp = coq_show(ctx, H, "explain (%s)" % case_term(parsed[i], obs[i], outs[i]), name="explain_%d" % i)
+            exp = coq_show(ctx, H, "explain (%s)" % case_term(parsed[i], obs[i], outs[i], bad=bads[i]), name="explain_%d" % i)
             detail.append({"label": label, "v2_yaml": text, "cli": cli, "outfile_history": pre_to_json(pre), "v3_yaml": obs[i]["out_text"], "observed": {k: obs[i].get(k) for k in ("exit", "load")},
                            "model_vs_output (code, only in model, only in output, model's loader verdict)": exp[:6000]})
         rp = ctx.write_replay("correspondence", {
@@ -1208,7 +1335,8 @@ def check(ctx, only=None):
         ctx.violation(rp, nofail=True)
     if (l_bad or l_errs) and not any_fail:
         ex = [{"v3_yaml": l_texts[i], "showconfig": l_obs[i],
-               "model": coq_show(ctx, H, "load (%s)" % yv_term(l_inputs[i]), name="lshow_%d" % i)} for i in l_bad[:3]]
+               "strings_that_do_not_compile": bad_of(ctx, l_inputs[i]),
+               "model": coq_show(ctx, H, "load (re_of %s) (%s)" % (coq_list(coq_bytes(x.encode()) for x in bad_of(ctx, l_inputs[i])), yv_term(l_inputs[i])), name="lshow_%d" % i)} for i in l_bad[:3]]
         rp = ctx.write_replay("loader-correspondence", {
             "what": "the loader model (accepted key / shape set per level) and `mockery showconfig` disagree",
             "obligation": "correspondence Harness/C19.v check_lcase - C19_loader_accepts is a theorem about this key set",
@@ -1241,16 +1369,19 @@ def check(ctx, only=None):
         "0-3 interfaces, 0-3 configs entries, null nodes, aliased configs; written by PyYAML in block/flow style with shuffled keys. "
         "the output path is fresh (45%) or has a history: an earlier `mockery migrate` of another / a superset / the same v2 file to the same path (two-step history), "
         "or a pre-seeded v3 file / other YAML / garbage / empty file - then the file must be byte-identical to migrating the same v2 file to a fresh path. "
+        "regex-valued keys (include-regex, exclude-regex, exclude) take values that Go's regexp compiles, except in the explicit class (1 case in 16) "
+        "where one of them, at a random level, gets a value that does not compile: there the value must still be carried over and showconfig must fail with the regex diagnostic. "
         "non-trivial = a mapped key is set at two or more levels; distinct by v2 file text. evaluations = main + loader-stream + malformed cases.",
         samples,
-        extra={"phase_seconds": phase, "input_histogram": hist, "mapped_key_level_pairs_covered": len(pairs), "mapped_key_level_pairs_possible": len(MAPPED) * 4,
+        extra={"phase_seconds": phase, "regex_classes": re_outcomes, "input_histogram": hist, "mapped_key_level_pairs_covered": len(pairs), "mapped_key_level_pairs_possible": len(MAPPED) * 4,
                "mapped_key_by_level": {"%s/%s" % k: v for k, v in sorted(pairs.items())},
                "main_cases": len(inputs), "model_cases_evaluated": len(terms), "model_mismatches": len(bad), "oracle_failures": len(oracle_fail),
                "migrate_exit_classes": count(o["exit"] for o in obs), "showconfig_exit_classes": count(str(o["load"]) for o in obs),
                "loader_stream": {"cases": len(l_inputs), "mutations": lhist, "showconfig_outcomes": l_outcomes, "model_mismatches": len(l_bad)},
                "malformed_stream": {"cases": len(mal), "kinds": mhist, "outcomes": m_outcomes, "failures": len(m_fail)}},
         assumptions=["PyYAML (writer of the v2 files, reader of both files) and yaml.v3 agree on the documents used: strings that either would read as another type are quoted by both",
-                     "package names never resolve to real Go packages (a recursive package with real sub-packages and an invalid `exclude` regex is C09's loader panic, not C19's)",
+                     "package names never resolve to real Go packages (with `recursive: true` the loader runs `go list <pkg>/...`; nothing is found, so loading stays fast and independent of the machine's module cache)",
+                     "which strings are regular expressions is decided by Go's own regexp.Compile (harness/go/drv_regex, standard library only)",
                      "`_anchors` content is drawn from null/bool/int/string/list/map with string keys (no floats, timestamps, non-string keys)"])
 
 
